@@ -187,15 +187,13 @@ func (s *Settings) merge(other *Settings) {
 		sField := sStruct.FieldByName(field.Name)
 		otherField := otherStruct.FieldByName(field.Name)
 
-		if field.Type.Kind() == reflect.Pointer {
-			otherFieldValue := getUnexportedField(otherField)
-			if !isNilish(otherFieldValue) {
-				setUnexportedField(sField, otherFieldValue)
-			}
-		} else {
-			otherFieldValue := getUnexportedField(otherField)
+		// Only take over what the other layer actually set: a nil pointer or a
+		// nil slice means "not set" and must not erase the value of a lower
+		// precedence layer (e.g. --trustedProxyCIDRs when the corresponding
+		// environment variable is absent).
+		otherFieldValue := getUnexportedField(otherField)
+		if !isNilish(otherFieldValue) {
 			setUnexportedField(sField, otherFieldValue)
-
 		}
 	}
 }
